@@ -3,7 +3,8 @@ C06  Bounded work and output.
 
 Proved here: the size bounds of the escapers; the linear bound of the backtick scanner, for the
 specification-level memo and for the positional memo the code implements; termination of `process_emphasis`,
-the linear bound of its opener search for the code as it is (since /repo commit 9704a60) and the quadratic
+the linear bound of its opener search for the code as it is (since /repo commits 9704a60 and e31def4, every
+delimiter character) and the quadratic
 lower bound of the loop before that repair on the rule-of-three family; the linear bound of the dollar
 scanners with their "no closer ahead" flags (since /repo commit 657287d; `$` scans ended by the space / digit
 rule excepted, with a counterexample) and the quadratic cost of the memo-less code-dollar scanner before it; the output size of the
@@ -212,10 +213,11 @@ theorem backticks_pos_linear' (rs : List Run) (tail : Nat) :
 Model: `Cost.emLoop` (the outer closer loop and the inner opener search over an abstract delimiter stack with
 `openers_bottom`), counting what the hook counter `emphasis-opener-search` counts; `emSteps fix ds` runs it on
 a whole inline text with the termination measure as fuel. `fix = true` is the code as it is since /repo
-commit 9704a60 (17 slots: `_` and `*` each split by can_open x length % 3; after a failed search the bottom
-is raised `if !mod_three_rule_invoked || matches!(delim_char, b'*' | b'_')`) and is tied to the real counter
-by equality in K. `fix = false` is the loop before that commit (12 slots, a single one for `_`, raised only
-`if !mod_three_rule_invoked`), kept for the historical counterexample. -/
+commits 9704a60 and e31def4 (42 slots: every delimiter character split by can_open x length % 3; after every
+failed search the bottom is raised, `mod_three_rule_invoked` is gone) and is tied to the real counter by
+equality in K, `~` (strikethrough) with its `insert_emph` exit included. `fix = false` is the loop before
+those commits (12 slots, a single one for `_`, raised only `if !mod_three_rule_invoked`), kept for the
+historical counterexample. -/
 
 def emSorted (ds : List Delim) : Prop := ds.Pairwise (fun a b => a.pos < b.pos)
 
@@ -226,7 +228,8 @@ theorem emphasis_terminates (fix : Bool) (ds : List Delim) : ∃ k, emSteps fix 
 
 /-- The amortised bound from any state that satisfies the stack invariant (positions increase up the
     stack, no bottom above the current closer), when every closer with property `P` either has its bottom
-    raised after every failed search or has no odd match among the openers with property `P`. -/
+    raised after every failed search (always, for the code as it is) or has no odd match among the openers
+    with property `P`. -/
 theorem emLoop_amortised (P : Delim → Prop) (hP : ∀ d n, P d → P { d with cur := n }) (fix : Bool)
     (hfix : ∀ c, P c → c.canClose = true → alwaysRaise fix c = true ∨
       ∀ o, P o → o.canOpen = true → o.ch = c.ch → oddMatch o c = false)
@@ -235,20 +238,14 @@ theorem emLoop_amortised (P : Delim → Prop) (hP : ∀ d n, P d → P { d with 
     ∃ k, emLoop fix fuel bot left right = some k ∧ k ≤ emPot bot left right :=
   emLoop_bound P hP fix hfix fuel bot left right hI hf
 
-theorem emPot_initial (ds : List Delim) : emPot (fun _ => 0) [] ds = 19 * ds.length + sumCur ds := by
+theorem emPot_initial (ds : List Delim) : emPot (fun _ => 0) [] ds = 44 * ds.length + sumCur ds := by
   simp only [emPot, potA_zero, List.length_nil, sumCur]; omega
-
-/-- Every closer is a `*` or `_` run (its bottom is raised after every failed search) or has no odd match
-    among the openers of its character (for `~ ^ |` the code keeps the guarded update). -/
-def emRaiseOk (ds : List Delim) : Prop :=
-  ∀ c ∈ ds, c.canClose = true → (c.ch = 0x2A ∨ c.ch = 0x5F) ∨
-    ∀ o ∈ ds, o.canOpen = true → o.ch = c.ch → oddMatch o c = false
 
 /-- The bound for either loop under the hypothesis in the form `emLoop_amortised` wants, from the start state. -/
 theorem emphasis_linear_of (fix : Bool) (ds : List Delim) (hs : emSorted ds)
     (hok : ∀ c ∈ ds, c.canClose = true → alwaysRaise fix c = true ∨
       ∀ o ∈ ds, o.canOpen = true → o.ch = c.ch → oddMatch o c = false) :
-    ∃ k, emSteps fix ds = some k ∧ k ≤ 19 * ds.length + sumCur ds := by
+    ∃ k, emSteps fix ds = some k ∧ k ≤ 44 * ds.length + sumCur ds := by
   -- P d: d is a delimiter of the text up to its current length
   let P : Delim → Prop := fun d => ∃ d0 ∈ ds, d0.ch = d.ch ∧ d0.len = d.len ∧ d0.canOpen = d.canOpen ∧ d0.canClose = d.canClose
   have hP : ∀ d n, P d → P { d with cur := n } := fun d n ⟨d0, h0, h⟩ => ⟨d0, h0, h⟩
@@ -256,7 +253,7 @@ theorem emphasis_linear_of (fix : Bool) (ds : List Delim) (hs : emSorted ds)
       ∀ o, P o → o.canOpen = true → o.ch = c.ch → oddMatch o c = false := by
     intro c ⟨c0, hc0, b1, b2, b3, b4⟩ hcl
     rcases hok c0 hc0 (by rw [b4]; exact hcl) with h | h
-    · left; simpa [alwaysRaise, b1] using h
+    · left; simpa [alwaysRaise] using h
     · right
       intro o ⟨o0, ho0, a1, a2, a3, a4⟩ h1 h3
       have := h o0 ho0 (by rw [a3]; exact h1) (by rw [a1, b1]; exact h3)
@@ -267,31 +264,24 @@ theorem emphasis_linear_of (fix : Bool) (ds : List Delim) (hs : emSorted ds)
   obtain ⟨k, h1, h2⟩ := emLoop_bound P hP fix hfix _ _ [] ds hI (Nat.le_refl _)
   exact ⟨k, h1, by rw [emPot_initial] at h2; exact h2⟩
 
-/-- **The opener search of `process_emphasis`, as the code is now, is linear**: at most `19 n + chars` counted
-    steps for `n` delimiter runs with `chars` delimiter characters in all (17 slots pay for the failed
-    searches, each delimiter is dropped once, each match uses up characters, each delimiter is visited as a
-    closer), for every text whose closers satisfy `emRaiseOk` - in particular ... -/
-theorem emphasis_linear_ext (ds : List Delim) (hs : emSorted ds) (hok : emRaiseOk ds) :
-    ∃ k, emSteps true ds = some k ∧ k ≤ 19 * ds.length + sumCur ds := by
-  refine emphasis_linear_of true ds hs (fun c hc hcl => ?_)
-  rcases hok c hc hcl with h | h
-  · left; rcases h with h | h <;> simp [alwaysRaise, h]
-  · exact Or.inr h
+/-- **The opener search of `process_emphasis`, as the code is now, is linear for every delimiter character**:
+    at most `44 n + chars` counted steps for `n` delimiter runs with `chars` delimiter characters in all (42
+    slots pay for the failed searches, each delimiter is dropped once, each match uses up characters, each
+    delimiter is visited as a closer) - no hypothesis about the characters or the rule of three. The model
+    `emSteps true` equals the real `emphasis-opener-search` counter on every text of the K stage (`* _ ~`).
+    History: /repo commit 9704a60 raised the bottom unconditionally only for `*` and `_`; `~ ^ |` kept the
+    guarded update and `"|~a|"^n a "|a~|"^n` was still quadratic (found by the thorough tier); commit e31def4
+    gave every character its six slots and dropped the guard. -/
+theorem emphasis_linear (ds : List Delim) (hs : emSorted ds) :
+    ∃ k, emSteps true ds = some k ∧ k ≤ 44 * ds.length + sumCur ds :=
+  emphasis_linear_of true ds hs (fun _ _ _ => Or.inl rfl)
 
-/-- **... every text whose delimiters are `*` and `_` runs** (all of default-option Markdown): no hypothesis
-    about the rule of three. The model `emSteps true` equals the real `emphasis-opener-search` counter on
-    every text of the K stage. -/
-theorem emphasis_linear (ds : List Delim) (hs : emSorted ds) (hch : ∀ d ∈ ds, d.ch = 0x2A ∨ d.ch = 0x5F) :
-    ∃ k, emSteps true ds = some k ∧ k ≤ 19 * ds.length + sumCur ds :=
-  emphasis_linear_ext ds hs (fun c hc _ => Or.inl (hch c hc))
-
-/-- In bytes: every delimiter run has at least one character, so at most `20` steps per delimiter byte. -/
-theorem emphasis_linear_bytes (ds : List Delim) (hs : emSorted ds) (hch : ∀ d ∈ ds, d.ch = 0x2A ∨ d.ch = 0x5F)
-    (hc : ∀ d ∈ ds, 1 ≤ d.cur) :
-    ∃ k, emSteps true ds = some k ∧ k ≤ 20 * sumCur ds := by
-  obtain ⟨k, h1, h2⟩ := emphasis_linear ds hs hch
+/-- In bytes: every delimiter run has at least one character, so at most `45` steps per delimiter byte. -/
+theorem emphasis_linear_bytes (ds : List Delim) (hs : emSorted ds) (hc : ∀ d ∈ ds, 1 ≤ d.cur) :
+    ∃ k, emSteps true ds = some k ∧ k ≤ 45 * sumCur ds := by
+  obtain ⟨k, h1, h2⟩ := emphasis_linear ds hs
   have hl : ds.length ≤ sumCur ds := by
-    clear h1 h2 hs hch
+    clear h1 h2 hs
     induction ds with
     | nil => simp [sumCur]
     | cons d ds ih =>
@@ -307,12 +297,12 @@ def noOddMatch (ds : List Delim) : Prop :=
 /-- The loop before /repo commit 9704a60 was linear only on texts without an odd match (then
     `mod_three_rule_invoked` stays false and `openers_bottom` is raised after every failed search). -/
 theorem emphasis_linear_old_noodd (ds : List Delim) (hs : emSorted ds) (hno : noOddMatch ds) :
-    ∃ k, emSteps false ds = some k ∧ k ≤ 19 * ds.length + sumCur ds :=
+    ∃ k, emSteps false ds = some k ∧ k ≤ 44 * ds.length + sumCur ds :=
   emphasis_linear_of false ds hs (fun c hc hcl => Or.inr (fun o ho h1 h3 => hno o ho c hc h1 hcl h3))
 
 /-- **Quadratic lower bound for `process_emphasis` as it was before /repo commit 9704a60** (`emSteps false`;
-    repaired there: `openers_bottom[ix]` is now raised after every failed search for `*` and `_`, and `_` has
-    its own can_open x length % 3 slots - see `emphasis_linear`, `emphasis_fixed_on_family`). On `"**b*a "`
+    repaired there and in e31def4: `openers_bottom[ix]` is now raised after every failed search and every
+    character has its own can_open x length % 3 slots - see `emphasis_linear`, `emphasis_fixed_on_family`). On `"**b*a "`
     repeated `2 m` times (`4 m` delimiter runs, `6 m` delimiter characters, `12 m` bytes) the single `*`
     closers that find no opener walked over all the `**` openers left below (rule of three), the bottom was
     not raised, and the `**` openers accumulated - at least `m^2 / 2` steps. Former known finding
@@ -329,16 +319,16 @@ theorem emphasis_quadratic_counterexample (m : Nat) :
     omega
 
 /-- ... so the bound of `emphasis_linear` did not hold for the loop before /repo commit 9704a60: on
-    `emFam 0 170` (2040 bytes of `*`-only text) it took more than `19 n + chars` steps. -/
+    `emFam 0 370` (4440 bytes of `*`-only text) it took more than `44 n + chars` steps. -/
 theorem emphasis_pinned_not_linear_counterexample :
-    ∃ ds, emSorted ds ∧ (∀ d ∈ ds, d.ch = 0x2A ∨ d.ch = 0x5F) ∧
-      ∃ k, emSteps false ds = some k ∧ 19 * ds.length + sumCur ds < k := by
-  obtain ⟨k, h1, h2, h3, h4, h5⟩ := emphasis_quadratic_counterexample 170
-  exact ⟨emFam 0 170, h5, fun d hd => Or.inl (emFam_star 170 0 d hd), k, h1, by omega⟩
+    ∃ ds, emSorted ds ∧ (∀ d ∈ ds, d.ch = 0x2A) ∧
+      ∃ k, emSteps false ds = some k ∧ 44 * ds.length + sumCur ds < k := by
+  obtain ⟨k, h1, h2, h3, h4, h5⟩ := emphasis_quadratic_counterexample 370
+  exact ⟨emFam 0 370, h5, emFam_star 370 0, k, h1, by omega⟩
 
-/-- The code as it is on the same family: linear (`82 m` steps for `12 m` bytes). -/
-theorem emphasis_fixed_on_family (m : Nat) : ∃ k, emSteps true (emFam 0 m) = some k ∧ k ≤ 82 * m := by
-  obtain ⟨k, h1, h2⟩ := emphasis_linear (emFam 0 m) (emFam_sorted m 0).1 (fun d hd => Or.inl (emFam_star m 0 d hd))
+/-- The code as it is on the same family: linear (at most `182 m` steps for `12 m` bytes by the general bound). -/
+theorem emphasis_fixed_on_family (m : Nat) : ∃ k, emSteps true (emFam 0 m) = some k ∧ k ≤ 182 * m := by
+  obtain ⟨k, h1, h2⟩ := emphasis_linear (emFam 0 m) (emFam_sorted m 0).1
   obtain ⟨hl, hc⟩ := emFam_length m 0
   exact ⟨k, h1, by omega⟩
 
@@ -625,6 +615,8 @@ example : btStepsPos [⟨1, 2⟩, ⟨1, 1⟩, ⟨1, 1⟩, ⟨1, 1⟩, ⟨1, 1⟩
 -- `a*a*`: one opener, one closer: 2 closer-loop iterations + 1 search step; `*a **b*a **b*a **b`: 9 steps
 example : emSteps true [⟨0x2A, 1, 1, true, false, 2⟩, ⟨0x2A, 1, 1, false, true, 4⟩] = some 3 := by decide
 example : emSteps false (emFam 0 3) = some 24 ∧ emSteps true (emFam 0 3) = some 21 := by decide
+-- `a~~b~ c`: the `~` closer finds the `~~` opener, the remaining lengths differ, insert_emph returns None: the loop ends
+example : emSteps true [⟨0x7E, 2, 2, true, false, 3⟩, ⟨0x7E, 1, 1, false, true, 5⟩, ⟨0x2A, 1, 1, false, true, 8⟩] = some 3 := by decide
 example : noOddMatch [⟨0x2A, 1, 1, true, false, 2⟩, ⟨0x2A, 1, 1, false, true, 4⟩] := by
   intro o ho c hc; simp at ho hc; rcases ho with rfl | rfl <;> rcases hc with rfl | rfl <;> decide
 example : cdStepsOld [2, 2, 2] = 8 + 5 + 2 := by decide
